@@ -527,7 +527,14 @@ func (b *Branch) Trim(height int) error {
 	if offset >= len(b.headers) {
 		return errors.New("Height Above Tip") // above tip
 	}
+	if offset <= 0 {
+		return errors.New("Height Not Available") // would leave no headers in this branch
+	}
 
+	// Remove the trimmed headers from the height map so they are no longer found in this branch.
+	for _, data := range b.headers[offset:] {
+		delete(b.heightsMap, data.Hash)
+	}
 	b.headers = b.headers[:offset]
 	return nil
 }
